@@ -109,6 +109,75 @@ def grid_spec(seed, D, perturbed):
             "obs": obs, "perturb": bool(perturbed), "wild": False, "fail_p": 0.0, "max_sweeps": 3, "sweeps": 3}
 
 
+def class_specs(seed):
+    """the hardening classes, generated deterministically in EVERY run (only the observations depend on the seed):
+    [(class name, spec)]; every spec runs 3 consecutive sweeps"""
+    rng = random.Random(seed)
+
+    def mk(name, nC, nT, D, rows, perturb, **kw):
+        sp = {"stream": "class", "case_seed": seed, "klass": name, "nC": nC, "nT": nT, "D": D, "rows": [list(r) for r in rows],
+              "obs": [round(0.02 + 0.96 * rng.random(), 6) for _ in rows], "perturb": perturb, "wild": False, "fail_p": 0.0,
+              "max_sweeps": 3, "sweeps": 3}
+        sp.update(kw)
+        return (name, sp)
+
+    out = []
+    # row orderings: treatment 1 sits in position 2 (row 0) BEFORE it sits in position 1 (row 1); samples interleaved 0,1,0,1
+    sbf = [[0, 0, 1], [1, 1, 2], [0, 2, 0], [1, 0, 2], [0, 1, 0], [1, 2, 1], [0, 1, -1], [1, -1, 1]]
+    # mirror: for every treatment all its position-1 rows come before all its position-2 rows
+    fbs = [[0, 2, -1], [0, 2, 3], [1, 1, 2], [0, 1, 3], [1, 0, 1], [0, 0, 2], [1, 0, 3], [1, -1, 1]]
+    for D in (1, 3):
+        for pert in (False, True):
+            out.append(mk("row-order.second-position-row-before-first-position-row", 2, 3, D, sbf, pert))
+            out.append(mk("row-order.first-position-rows-before-second-position-rows", 2, 4, D, fbs, pert))
+    # falsy boundaries: sample 0 and treatment 0 (first ids) without data; D = 1; n_obs = 0 / 1
+    out.append(mk("falsy.id0-sample-and-treatment-without-data", 3, 4, 2, [[1, 1, 2], [2, 2, 3], [1, 3, 1], [2, 1, -1], [1, -1, 3]], False))
+    out.append(mk("falsy.id0-sample-and-treatment-without-data", 3, 4, 2, [[1, 1, 2], [2, 2, 3], [1, 3, 1], [2, 1, -1], [1, -1, 3]], True))
+    out.append(mk("falsy.n_obs=0", 2, 2, 1, [], False))
+    out.append(mk("falsy.n_obs=0", 2, 2, 3, [], True))
+    out.append(mk("falsy.n_obs=1", 2, 2, 1, [[0, 0, 1]], False))
+    out.append(mk("falsy.n_obs=1", 1, 1, 2, [[0, -1, 0]], True))
+    out.append(mk("falsy.D=1", 2, 3, 1, GRID_ROWS[:9], True))
+    # object reuse: sweep, reset_model(), more rows through a second add_observations, two more sweeps on the SAME object
+    out.append(mk("object-reuse.reset_model-then-more-rows", 3, 3, 2, GRID_ROWS, False, n0=5, grow_at=1, reset_at=1))
+    out.append(mk("object-reuse.reset_model-then-more-rows", 3, 4, 3, sbf + fbs, True, n0=3, grow_at=1, reset_at=1))
+    out.append(mk("object-reuse.rows-added-to-empty-model", 3, 3, 2, GRID_ROWS, False, n0=0, grow_at=1))
+    # id encodings: ids are not positions (permuted ids, mapping rows shuffled); a dataset without any control entry
+    out.append(mk("id-encoding.permuted-mapping-ids", 3, 4, 2, GRID_ROWS + [[2, 3, 0]], True,
+                  tperm=[2, 0, 3, 1], sperm=[1, 2, 0], tmap_row_order=[3, 1, 0, 2]))
+    out.append(mk("id-encoding.no-control-entry", 2, 3, 2, [[0, 0, 1], [1, 1, 2], [0, 2, 0], [1, 0, 2], [0, 1, 0], [1, 2, 1]], True))
+    # memory layout of the arrays the screen is built from
+    out.append(mk("layout.strided-readonly-fortran-wide-U", 2, 3, 2, sbf, True, layout="strided-readonly"))
+    # two-digit ids / names
+    big = [[n % 11, n % 12, (5 * n + 3) % 12] for n in range(30)]
+    big = [[c, a, (b if b != a else -1)] for c, a, b in big]
+    out.append(mk("size.two-digit-ids", 11, 12, 2, big, True))
+    return out
+
+
+def class_nontrivial(name, spec):
+    """does the case really have the feature its class promises?"""
+    rows = spec["rows"]
+    if name.startswith("row-order."):
+        sbf = fbs_all = False
+        ok_all = True
+        for m in range(spec["nT"]):
+            i1 = [n for n, r in enumerate(rows) if r[1] == m]
+            i2 = [n for n, r in enumerate(rows) if r[2] == m]
+            if i1 and i2:
+                sbf = sbf or min(i2) < max(i1)
+                ok_all = ok_all and max(i1) < min(i2)
+        both = any(any(r[1] == m for r in rows) and any(r[2] == m for r in rows) for m in range(spec["nT"]))
+        return (sbf if "second-position-row-before" in name else (both and ok_all))
+    if name == "falsy.id0-sample-and-treatment-without-data":
+        return all(r[0] != 0 and r[1] != 0 and r[2] != 0 for r in rows) and len(rows) > 0
+    if name == "id-encoding.no-control-entry":
+        return all(r[1] >= 0 and r[2] >= 0 for r in rows)
+    if name == "size.two-digit-ids":
+        return any(r[0] >= 10 for r in rows) and any(max(r[1], r[2]) >= 10 for r in rows)
+    return True
+
+
 def history_spec(seed, max_sweeps):
     """a `main` dataset with >= 4 rows whose tail is added by a second add_observations() before sweep `grow_at`, and/or
     reset_model() before sweep `reset_at`; three sweeps"""
@@ -179,12 +248,38 @@ def fixed_selfpair_spec():
             "fail_p": 0.0, "max_sweeps": 1, "sweeps": 1}
 
 
+def perms_of(spec):
+    """(treatment perm, sample perm): name t<i> carries id tperm[i] (identity unless the spec asks for permuted ids)"""
+    nT, nC = spec["nT"], spec["nC"]
+    return spec.get("tperm") or list(range(nT)), spec.get("sperm") or list(range(nC))
+
+
 def maps_of(spec):
     nT, nC = spec["nT"], spec["nC"]
-    tmap = (np.array(["t%d" % i for i in range(nT)] + [""], dtype=str), np.array([1.0] * nT + [0.0]),
-            np.array(list(range(nT)) + [-1]))
-    smap = (np.array(["s%d" % i for i in range(nC)], dtype=str), np.arange(nC))
+    tperm, sperm = perms_of(spec)
+    order_t = spec.get("tmap_row_order") or list(range(nT))       # rows of the supplied mapping in shuffled order
+    tmap = (np.array(["t%d" % i for i in order_t] + [""], dtype=str), np.array([1.0] * nT + [0.0]),
+            np.array([tperm[i] for i in order_t] + [-1]))
+    smap = (np.array(["s%d" % i for i in range(nC)], dtype=str), np.array([sperm[i] for i in range(nC)]))
     return tmap, smap
+
+
+def relayout(a, layout):
+    """the same values in another memory layout (strided view of a wider buffer, read-only; wider <U for strings)"""
+    if layout is None:
+        return a
+    if a.dtype.kind == "U":
+        a = a.astype("<U31")
+    big = np.zeros((a.shape[0] * 2,) + a.shape[1:], dtype=a.dtype, order="F" if a.ndim == 2 else "C")
+    v = big[::2]
+    v[...] = a
+    if layout == "strided-readonly":
+        v.setflags(write=False)
+    return v
+
+
+def screen_bytes(screen):
+    return tuple(np.ascontiguousarray(getattr(screen, k)).tobytes() for k in ("observations", "treatment_ids", "sample_ids", "observation_mask"))
 
 
 def build_screen(spec, rows, obs):
@@ -192,12 +287,16 @@ def build_screen(spec, rows, obs):
     if not rows:
         return None
     tmap, smap = maps_of(spec)
-    tn = np.array([[("t%d" % a if a >= 0 else ""), ("t%d" % b if b >= 0 else "")] for _, a, b in rows], dtype=str)
+    tperm, sperm = perms_of(spec)
+    tinv = {i_: n_ for n_, i_ in enumerate(tperm)}
+    sinv = {i_: n_ for n_, i_ in enumerate(sperm)}
+    lay = spec.get("layout")
+    tn = np.array([[("t%d" % tinv[a] if a >= 0 else ""), ("t%d" % tinv[b] if b >= 0 else "")] for _, a, b in rows], dtype=str)
     td = np.array([[1.0 if a >= 0 else 0.0, 1.0 if b >= 0 else 0.0] for _, a, b in rows])
-    screen = Screen(treatment_names=tn, treatment_doses=td,
-                    sample_names=np.array(["s%d" % c for c, _, _ in rows], dtype=str),
-                    plate_names=np.array(["p"] * len(rows), dtype=str),
-                    observations=np.array(obs, dtype=float), treatment_mapping=tmap, sample_mapping=smap)
+    screen = Screen(treatment_names=relayout(tn, lay), treatment_doses=relayout(td, lay),
+                    sample_names=relayout(np.array(["s%d" % sinv[c] for c, _, _ in rows], dtype=str), lay),
+                    plate_names=relayout(np.array(["p"] * len(rows), dtype=str), lay),
+                    observations=relayout(np.array(obs, dtype=float), lay), treatment_mapping=tmap, sample_mapping=smap)
     ids_ok = (np.array_equal(np.asarray(screen.treatment_ids), np.array([[a, b] for _, a, b in rows]))
               and np.array_equal(np.asarray(screen.sample_ids), np.array([c for c, _, _ in rows])))
     if not ids_ok:
@@ -801,12 +900,19 @@ def run_case(spec, res, queue, report=True):
     from scipy.special import logit
     case = {"case_seed": spec["case_seed"], "stream": spec["stream"], "max_sweeps": spec["max_sweeps"], "nC": spec["nC"],
             "nT": spec["nT"], "D": spec["D"], "rows": spec["rows"], "sweeps": spec["sweeps"]}
-    for k in ("fixed", "grid", "n0", "grow_at", "reset_at"):
+    for k in ("fixed", "grid", "n0", "grow_at", "reset_at", "klass", "class_index", "tperm", "sperm", "tmap_row_order", "layout"):
         if spec.get(k) is not None:
             case[k] = spec[k]
     rng = random.Random(spec["case_seed"] ^ 0x5EED)
     n_now = spec.get("n0", len(spec["rows"])) if spec.get("grow_at") is not None else len(spec["rows"])
-    model, screen = build_model(spec, n_now)
+    try:
+        model, screen = build_model(spec, n_now)
+    except RuntimeError:
+        raise
+    except Exception as e:      # noqa: BLE001 -- the unchanged tree accepts every generated screen
+        res.fail("building the model / add_observations raised on a valid screen", case, "%s: %s" % (type(e).__name__, str(e)[:200]),
+                 "add_observations accepts the screen", "C08:add-observations-raised")
+        return
     w = model.wrapped_model
     nC, nT, D = spec["nC"], spec["nT"], spec["D"]
     proxy = Proxy(rng.randrange(2 ** 32), spec["wild"], None)
@@ -839,24 +945,34 @@ def run_case(spec, res, queue, report=True):
     ok, rows, N, data, y_ref = current_data()
     if not ok:
         return
+    given = [(screen, screen_bytes(screen))] if screen is not None else []     # every screen handed to add_observations
     prev = None          # (theta exported after the previous sweep, its Mu, 1/prec, muabs, screen)
     occ = None
     sweep_no = 0
     extra_alias_sweep = False
     while sweep_no < spec["sweeps"] or extra_alias_sweep:
         oracle_sweep = sweep_no < spec["sweeps"]
+        if oracle_sweep and spec.get("reset_at") == sweep_no:
+            model.reset_model()
+            res.count("history.reset_model_between_sweeps")
         if oracle_sweep and spec.get("grow_at") == sweep_no and n_now < len(spec["rows"]):
             more = build_screen(spec, spec["rows"][n_now:], spec["obs"][n_now:])
-            model.add_observations(more)
+            more_b = screen_bytes(more)
+            try:
+                model.add_observations(more)
+            except Exception as e:      # noqa: BLE001
+                fail("a second add_observations raised on a valid screen", "%s: %s" % (type(e).__name__, str(e)[:200]),
+                     "add_observations accepts the screen", "C08:add-observations-raised")
+                return
+            given.append((more, more_b))
             n_now = len(spec["rows"])
             screen = build_screen(spec, spec["rows"], spec["obs"])
             ok, rows, N, data, y_ref = current_data()
             res.count("history.rows_added_between_sweeps")
+            if spec.get("reset_at") == sweep_no:
+                res.count("class.object-reuse.reset_model-then-more-rows")
             if not ok:
                 return
-        if oracle_sweep and spec.get("reset_at") == sweep_no:
-            model.reset_model()
-            res.count("history.reset_model_between_sweeps")
         if oracle_sweep and spec["perturb"] and sweep_no == 0:
             for _try in range(20):
                 perturb_state(w, rng, N, nT, occ, distinct=spec["stream"] == "grid")
@@ -911,7 +1027,11 @@ def run_case(spec, res, queue, report=True):
                 if var.shape != (N,) or not close(var, np.full(N, 1.0 / after["prec"]), 1.0 / after["prec"], tol=1e-9):
                     fail("exported variance is not 1/prec", var.tolist()[:4], 1.0 / after["prec"], "C08:export")
                 prev = (th, np.array(after["Mu"]), 1.0 / after["prec"], muabs, screen)
-                shared = [k for k in EXPORT_FIELDS if np.shares_memory(np.asarray(getattr(th, k)), getattr(w, k))]
+                # attribute completeness: every array of the exported sample against every array the sampler holds (by introspection)
+                th_arrays = {k: v for k, v in vars(th).items() if isinstance(v, np.ndarray)}
+                w_arrays = {k: v for k, v in vars(w).items() if isinstance(v, np.ndarray)}
+                res.count("class.attribute-completeness.export-arrays-introspected", len(th_arrays))
+                shared = [(k, kw) for k, v in th_arrays.items() for kw, vw in w_arrays.items() if np.shares_memory(v, vw)]
                 if shared and sweep_no == spec["sweeps"] - 1 and log is not None:
                     # last oracle sweep of the case: run one more step so that the aliasing shows as behaviour
                     extra_alias_sweep = True
@@ -924,6 +1044,11 @@ def run_case(spec, res, queue, report=True):
         if any(r["kind"] == "mvn" and r["failed"] for r in trace["records"]):
             res.count("sweeps.with_failed_mvn")
         sweep_no += 1
+    # input mutation: the screens handed to add_observations are bit-for-bit what they were
+    for scr, b0 in given:
+        res.count("class.input-mutation.screens-rechecked-after-sweeps")
+        if screen_bytes(scr) != b0:
+            fail("add_observations / step modified the screen it was given", "screen arrays changed", "unchanged", "C08:input-mutated")
     res.traces_validated += 1
 
 
@@ -986,7 +1111,7 @@ def run(ctx, res):
     max_sweeps = ctx.scale(3, 5, 5)
     queue = []
     rng = ctx.subrng("main")
-    n_main = ctx.scale(220, 3000, 800)
+    n_main = ctx.scale(170, 3000, 800)
     for t in range(n_main):
         spec = gen_spec(rng.randrange(2 ** 48), "main", max_sweeps)
         describe(spec, res)
@@ -1002,6 +1127,16 @@ def run(ctx, res):
                 res.count("grid.D=%d.%s" % (D, "randomised" if perturbed else "fresh"))
                 describe(spec, res)
                 run_case(spec, res, queue)
+    # the hardening classes (HARDENING_CHECKLIST.md): deterministic shapes, in every run
+    cls_seed = ctx.subrng("class").randrange(2 ** 48)
+    for ci, (name, spec) in enumerate(class_specs(cls_seed)):
+        spec["class_index"] = ci
+        if not class_nontrivial(name, spec):
+            raise RuntimeError("harness: class case %s lacks its feature" % name)
+        n_before = res.traces_validated
+        describe(spec, res)
+        run_case(spec, res, queue)
+        res.count("class." + name, int(res.traces_validated > n_before))
     # histories: rows added between sweeps, reset_model() between sweeps
     rng = ctx.subrng("history")
     for t in range(ctx.scale(24, 300, 80)):
@@ -1053,6 +1188,9 @@ def replay(ctx, case, res):
         spec = grid_spec(case["case_seed"], case["grid"][0], case["grid"][1])
     elif case.get("stream") == "history":
         spec = history_spec(case["case_seed"], case.get("max_sweeps", 3))
+    elif case.get("stream") == "class":
+        spec = class_specs(case["case_seed"])[case["class_index"]][1]
+        spec["class_index"] = case["class_index"]
     else:
         spec = gen_spec(case["case_seed"], case["stream"], case.get("max_sweeps", 3))
     queue = []
